@@ -1,13 +1,26 @@
 """C19 - surrogate wrapper accounting: correspondence with Model/Surrogate.v and direct oracle.
 
-Subjects (all through `problem.surrogate.evaluate`, part of the cases through `Job.evaluate`):
+A case is a SESSION on one problem: one to three wrapper objects (subjects below), one of which is
+`problem.surrogate`, and a list of events
+  req          problem.surrogate.evaluate(individual)          (part of the cases through Job.evaluate)
+  seed         problem.individuals = [...]; problem.surrogate.read_from_data_store()
+               (individuals in every state: EVALUATED with costs, EMPTY / IN_PROGRESS / FAILED with costs [])
+  train        the user calls problem.surrogate.train()
+  set_step     problem.surrogate.train_step = k
+  set_trained  problem.surrogate.trained = b
+  use          problem.surrogate = wrappers[k]                  (the other wrapper objects keep their state)
+optionally preceded by a warm-up segment of the same kind that is run on the real objects only; the
+model run then STARTS FROM THE SNAPSHOT of the real wrappers (counters advanced, training set seeded:
+len(x_data) != eval_counter), not from a fresh wrapper.
+
+Subjects:
   eval      SurrogateModelEval (the default pass-through wrapper of every Problem)
   scikit    SurrogateModelScikit with a stub regressor: the real evaluate / evaluate_individual /
             train() code runs, only regressor.fit / score / predict are scripted and recorded
   scripted  a minimal SurrogateModelPredict subclass whose train() sets `trained` from a script
             (also to False), so that trained -> untrained transitions are exercised
 The objective, the predict hook and the regressor are scripted by the harness and record the
-wrapper's counters at the moment they are called.
+wrapper's counters at the moment they are called (per wrapper object).
 """
 from harness.core import fl, zl, nl, bl, ll, pl, optl
 
@@ -16,7 +29,10 @@ THEOREMS = {"Artap.Props.C19": [
     "C19_sequence_is_steps", "C19_passthrough_exact", "C19_prediction_only_if_trained_and_hook",
     "C19_true_eval_once_unchanged_counted_recorded", "C19_retrain_step", "C19_retrain_condition",
     "C19_retrain_schedule", "C19_never_retrained_for_minus_one", "C19_sequence_accounting",
-    "C19_sequence_answers", "C19_counters_add_up", "C19_data_aligned"]}
+    "C19_sequence_answers", "C19_counters_add_up", "C19_data_aligned",
+    "C19_read_from_data_store", "C19_user_train", "C19_decisions_independent_of_training_set",
+    "C19_seeding_changes_only_training_set", "C19_session_event_current", "C19_session_use",
+    "C19_session_request", "C19_session_other_events"]}
 AXIOMS_OK = []          # the theorems are closed under the global context
 TRUSTED = [
     "Coq 8.16.1 kernel, vm_compute for model evaluation (no native_compute)",
@@ -26,14 +42,18 @@ TRUSTED = [
     "train() is an oracle: what `trained` is after the k-th call is observed on the implementation and given to the model as a tape; "
     "the theorems hold for every such oracle",
     "the objective, the predict hook and the regressor (fit/score/predict) are scripted by the harness",
+    "the starting state of a model run is the state observed on the real wrapper objects (fresh, or a snapshot after a warm-up segment)",
 ]
 ASSUMPTIONS = [
     "the objective and the predict hook do not raise and do not modify the surrogate (the hook of test_surrogate_function.py that "
     "rescales train_step is covered only in the sense that the per-request theorems hold from every state and for every train_step)",
-    "problem.surrogate is the wrapper being called (the code increments problem.surrogate.predict_counter, not self.predict_counter)",
+    "problem.surrogate is the wrapper being called (the code increments problem.surrogate.predict_counter, not self.predict_counter); "
+    "Job.evaluate always goes through problem.surrogate, and so do the sessions (also after problem.surrogate was reassigned)",
     "train_step is an integer; train_step = 0 makes `eval_counter % train_step` raise ZeroDivisionError after the evaluation has been "
     "counted and recorded (modelled as outcome Raised; the 'returned unchanged' clause is stated for train_step <> 0)",
     "regressor.fit/score do not raise (an exception inside train() propagates out of evaluate after counting and recording; not modelled)",
+    "between requests the user only calls read_from_data_store() / train() or assigns train_step / trained / problem.surrogate; "
+    "x_data / y_data / the counters are not edited by hand (the per-request theorems hold from every state nevertheless)",
 ]
 
 HEADER = ("From Artap Require Import Run.C19Run.\nFrom Coq Require Import List ZArith Floats.\nImport ListNotations.\n"
@@ -61,23 +81,11 @@ def enc_vnn(t):
     return pl(enc_vec(t[0]), nl(t[1]), nl(t[2]))
 
 
-def gen_case(rng, forced=None):
-    subject = rng.choice(["eval", "scikit", "scikit", "scikit", "scripted", "scripted"])
-    ts = rng.choice(TRAIN_STEPS)
-    n = rng.choice([1, 2, 3, 5, 8, 12, 20, 30, 45, 60]) if rng.random() < 0.5 else rng.randint(1, 60)
-    has_hook = rng.random() < 0.8
-    trained0 = rng.random() < 0.2
-    p_accept = rng.choice([0.0, 0.3, 0.5, 0.8, 1.0])
-    p_train_ok = rng.choice([1.0, 1.0, 0.7, 0.3])
-    dim = rng.choice([1, 1, 2, 3])
-    m = rng.choice([1, 1, 2])
-    if forced:
-        subject = forced.get("subject", subject)
-        ts = forced.get("ts", ts)
-        n = forced.get("n", n)
-        has_hook = forced.get("has_hook", has_hook)
-        trained0 = forced.get("trained0", trained0)
-        p_accept = forced.get("p_accept", p_accept)
+SEED_STATES = ["EVALUATED", "EVALUATED", "EVALUATED", "EVALUATED", "EMPTY", "IN_PROGRESS", "FAILED"]
+SESSION_STEPS = [-1, 1, 2, 2, 3, 3, 4, 5, 5, 7, 10, 0, -2, -3]
+
+
+def gen_requests(rng, n, dim, m, p_accept):
     pool = [[rng.choice(VGRID) for _ in range(dim)] for _ in range(max(2, n // 3))]
     reqs = []
     for _ in range(n):
@@ -87,11 +95,87 @@ def gen_case(rng, forced=None):
         if rng.random() < p_accept:
             r = rng.random()
             hook = [] if r < 0.05 else [0.0] * m if r < 0.12 else list(true) if r < 0.2 else [rng.choice(CGRID) + 1000.0 for _ in range(m)]
-        reqs.append((vec, hook, true))
-    return {"subject": subject, "train_step": ts, "has_hook": has_hook, "trained0": trained0,
+        reqs.append(["req", vec, hook, true])
+    return reqs
+
+
+def gen_slot(rng, subject, ts, trained0, n, p_train_ok):
+    return {"subject": subject, "train_step": ts, "trained0": trained0,
             "train_script": [rng.random() < p_train_ok for _ in range(n + 1)],
-            "scores": [rng.choice(SCORES) for _ in range(n + 1)],
-            "via_job": ts != 0 and rng.random() < 0.4, "dim": dim, "m": m, "requests": reqs}
+            "scores": [rng.choice(SCORES) for _ in range(n + 1)]}
+
+
+def gen_plain(rng):
+    """One wrapper, fresh state, requests only (the stream of the first version of this check)."""
+    subject = rng.choice(["eval", "scikit", "scikit", "scikit", "scripted", "scripted"])
+    ts = rng.choice(TRAIN_STEPS)
+    n = rng.choice([1, 2, 3, 5, 8, 12, 20, 30, 45, 60]) if rng.random() < 0.5 else rng.randint(1, 60)
+    p_accept = rng.choice([0.0, 0.3, 0.5, 0.8, 1.0])
+    p_train_ok = rng.choice([1.0, 1.0, 0.7, 0.3])
+    dim = rng.choice([1, 1, 2, 3])
+    m = rng.choice([1, 1, 2])
+    return {"stream": "plain", "has_hook": rng.random() < 0.8, "via_job": ts != 0 and rng.random() < 0.4, "cur": 0,
+            "slots": [gen_slot(rng, subject, ts, rng.random() < 0.2, n, p_train_ok)],
+            "warmup": [], "events": gen_requests(rng, n, dim, m, p_accept)}
+
+
+def gen_seed(rng, dim, m, previous):
+    """problem.individuals at the moment of a read_from_data_store() call: sometimes the list of the
+    previous call again (plus new ones): the code then copies the same individuals a second time."""
+    inds = [list(i) for i in previous] if previous and rng.random() < 0.3 else []
+    for _ in range(rng.choice([0, 1, 1, 2, 3, 3, 4, 5, 7, 9])):
+        st = rng.choice(SEED_STATES)
+        vec = [rng.choice(VGRID) for _ in range(dim)]
+        costs = [rng.choice(CGRID) for _ in range(m)] if st == "EVALUATED" else []
+        inds.append([vec, costs, st])
+    return inds
+
+
+def gen_session(rng):
+    """Requests interleaved with seeding, user train() calls, assignments of train_step / trained /
+    problem.surrogate, over 1..3 wrapper objects; optionally split into warm-up + observed part."""
+    n_slots = rng.choice([1, 1, 2, 2, 3])
+    n = rng.choice([4, 6, 8, 12, 16, 24, 32, 40])
+    dim = rng.choice([1, 1, 2])
+    m = rng.choice([1, 1, 2])
+    p_accept = rng.choice([0.0, 0.0, 0.3, 0.5, 0.8])
+    p_train_ok = rng.choice([1.0, 1.0, 0.7, 0.3])
+    subjects = [rng.choice(["scikit", "scikit", "scripted", "scripted", "eval"]) for _ in range(n_slots)]
+    if all(x == "eval" for x in subjects):
+        subjects[-1] = "scikit"
+    slots = [gen_slot(rng, sub, rng.choice(SESSION_STEPS), rng.random() < 0.3, n, p_train_ok) for sub in subjects]
+    cur = rng.randrange(n_slots)
+    events, last_seed, c = [], [], cur
+    if rng.random() < 0.5:                           # the workflow of the docs: DoE first, then a seeded predicting wrapper
+        pred = [k for k, x in enumerate(subjects) if x != "eval"]
+        if subjects[c] == "eval":
+            c = rng.choice(pred)
+            if c != cur and rng.random() < 0.7:
+                events += gen_requests(rng, rng.randint(0, 4), dim, m, p_accept)
+            events.append(["use", c])
+        last_seed = gen_seed(rng, dim, m, [])
+        events.append(["seed", last_seed])
+    reqs = gen_requests(rng, n, dim, m, p_accept)
+    for r in reqs:
+        while rng.random() < 0.22:
+            u = rng.random()
+            if u < 0.22:
+                last_seed = gen_seed(rng, dim, m, last_seed)
+                events.append(["seed", last_seed])
+            elif u < 0.42:
+                events.append(["train"])
+            elif u < 0.62 and subjects[c] != "eval":
+                events.append(["set_step", rng.choice(SESSION_STEPS)])
+            elif u < 0.74:
+                events.append(["set_trained", rng.random() < 0.6])
+            elif n_slots > 1:
+                c = rng.choice([k for k in range(n_slots) if k != c])
+                events.append(["use", c])
+        events.append(r)
+    cut = rng.randint(1, max(1, len(events) // 2)) if rng.random() < 0.4 else 0
+    has_zero = any(sl["train_step"] == 0 for sl in slots) or any(e[0] == "set_step" and e[1] == 0 for e in events)
+    return {"stream": "session", "has_hook": rng.random() < 0.85, "via_job": (not has_zero) and rng.random() < 0.3, "cur": cur,
+            "slots": slots, "warmup": events[:cut], "events": events[cut:]}
 
 
 def run(ctx):
@@ -102,40 +186,41 @@ def run(ctx):
     from artap.surrogate_scikit import SurrogateModelScikit
 
     class Rec:
-        """What the scripted collaborators see, in call order."""
+        """What the scripted collaborators see when called through one wrapper object, in call order."""
         def __init__(self):
             self.obj, self.hook, self.train, self.fit, self.score, self.tape = [], [], [], [], [], []
-            self.current = None
 
     class BaseProblem(Problem):
         def set(self, **kwargs):
             self.name = "c19"
             self.parameters = [{'name': 'x%d' % i, 'initial_value': 0.0, 'bounds': [-10, 10]} for i in range(3)]
             self.costs = [{'name': 'F1'}, {'name': 'F2'}]
-            self.rec = Rec()
+            self.current = None
+            self.n_obj = 0
 
         def evaluate(self, individual):
             s = self.surrogate
-            self.rec.obj.append((list(individual.vector), len(s.x_data), s.eval_counter))
-            return list(self.rec.current[2])
+            self.n_obj += 1
+            s.rec.obj.append((list(individual.vector), len(s.x_data), s.eval_counter))
+            return list(self.current[3])
 
     class HookProblem(BaseProblem):
         def predict(self, individual):
             s = self.surrogate
-            self.rec.hook.append((list(individual.vector), s.eval_counter, s.predict_counter))
-            h = self.rec.current[1]
+            s.rec.hook.append((list(individual.vector), s.eval_counter, s.predict_counter))
+            h = self.current[2]
             return None if h is None else list(h)
 
     class StubRegressor:
-        def __init__(self, sur, rec, scores):
-            self.sur, self.rec, self.scores = sur, rec, list(scores)
+        def __init__(self, sur, scores):
+            self.sur, self.scores = sur, list(scores)
 
         def fit(self, X, y):
-            self.rec.fit.append((self.sur.eval_counter, [list(v) if is_fvec(v) else v for v in X], [list(v) if is_fvec(v) else v for v in y]))
+            self.sur.rec.fit.append((self.sur.eval_counter, [list(v) if is_fvec(v) else v for v in X], [list(v) if is_fvec(v) else v for v in y]))
             return self
 
         def score(self, X, y):
-            self.rec.score.append(len(X))
+            self.sur.rec.score.append(len(X))
             return self.scores.pop(0) if self.scores else 1.0
 
         def predict(self, X, return_std=False):
@@ -143,7 +228,7 @@ def run(ctx):
 
     class ObsScikit(SurrogateModelScikit):
         def train(self):
-            rec = self.problem.rec
+            rec = self.rec
             rec.train.append((self.eval_counter, len(self.x_data), len(self.y_data)))
             super().train()
             rec.tape.append(bool(self.trained))
@@ -156,7 +241,7 @@ def run(ctx):
             raise AssertionError("not used")
 
         def train(self):
-            rec = self.problem.rec
+            rec = self.rec
             rec.train.append((self.eval_counter, len(self.x_data), len(self.y_data)))
             self.trained = self.script[len(rec.tape)] if len(rec.tape) < len(self.script) else True
             rec.tape.append(bool(self.trained))
@@ -166,208 +251,409 @@ def run(ctx):
     for p in problems.values():
         p.logger.setLevel(logging.CRITICAL)
 
-    def fail(what, case, i, **kw):
-        d = {"what": what, "input": {"subject": case["subject"], "train_step": case["train_step"], "has_hook": case["has_hook"],
-                                     "trained0": case["trained0"], "via_job": case["via_job"], "request_index": i,
-                                     "requests": case["requests"][:i + 1] if i is not None else case["requests"]},
-             "match": {"kind": "surrogate_sequence", "subject": case["subject"], "train_step": case["train_step"], "clause": kw.get("clause", what)}}
-        d["input"].update({k: v for k, v in kw.items() if k != "clause"})
+    # how often a quantity that coincides with eval_counter on a fresh wrapper would have led to a
+    # different retrain decision (`q % train_step == 0`) than eval_counter did
+    SEP = ["len_x_data", "requests_to_wrapper", "predict_counter", "counter_before_increment",
+           "objective_calls_on_problem", "evaluations_since_last_train_call", "evaluations_since_start_of_case"]
+    sep = {"retrain_decisions": 0, "len_x_data_differs_from_eval_counter": 0, "cases_with_such_a_decision": 0,
+           "trains_with_len_x_data_differing": 0,
+           "quantity_differs": {k: 0 for k in SEP}, "decision_would_differ": {k: 0 for k in SEP}}
+
+    def fail(what, case, pos, **kw):
+        seg, i = pos
+        evs = case["warmup"] + case["events"]
+        upto = (i if seg == "warmup" else len(case["warmup"]) + i) + 1 if i is not None else len(evs)
+        d = {"what": what, "input": {"has_hook": case["has_hook"], "via_job": case["via_job"], "cur": case["cur"],
+                                     "wrappers": [{k: sl[k] for k in ("subject", "train_step", "trained0")} for sl in case["slots"]],
+                                     "event_index": upto - 1, "events": evs[:upto]},
+             "match": {"kind": "surrogate_sequence", "subject": kw.get("subject"), "train_step": kw.get("train_step"), "clause": kw.get("clause", what)}}
+        d["input"].update({k: v for k, v in kw.items() if k not in ("clause", "subject", "train_step")})
         if len(ctx.oracle_failures) < 50:
             ctx.oracle_failures.append(d)
 
     def implementation(case):
-        """Runs the case on artap; returns the observation and applies the direct oracle request by request."""
+        """Runs the case on artap; returns the observation and applies the direct oracle event by event."""
         problem = problems[case["has_hook"]]
-        problem.rec = rec = Rec()
-        subject, ts = case["subject"], case["train_step"]
-        if subject == "eval":
-            sur = SurrogateModelEval(problem)
-        elif subject == "scikit":
-            sur = ObsScikit(problem)
-            sur.regressor = StubRegressor(sur, rec, case["scores"])
-            sur.train_step = ts
-        else:
-            sur = Scripted(problem)
-            sur.script = list(case["train_script"])
-            sur.regressor = object()
-            sur.train_step = ts
-        if subject != "eval":
-            sur.trained = case["trained0"]
-        problem.surrogate = sur
-        trained0 = bool(sur.trained)
+        problem.individuals = []
+        problem.n_obj = 0
+        wrappers, acct = [], []
+        for sl in case["slots"]:
+            subject, ts = sl["subject"], sl["train_step"]
+            if subject == "eval":
+                sur = SurrogateModelEval(problem)
+            elif subject == "scikit":
+                sur = ObsScikit(problem)
+                sur.regressor = StubRegressor(sur, sl["scores"])
+                sur.train_step = ts
+            else:
+                sur = Scripted(problem)
+                sur.script = list(sl["train_script"])
+                sur.regressor = object()
+                sur.train_step = ts
+            if subject != "eval":
+                sur.trained = sl["trained0"]
+            sur.rec = Rec()
+            sur.c19_subject = subject
+            wrappers.append(sur)
+            acct.append({"requests": 0, "want_x": [], "want_y": [], "ec_last_train": 0, "ec_case_start": 0})
+        problem.surrogate = wrappers[case["cur"]]
         job = Job(problem)
         rets = []
-        want_x, want_y = [], []
-        for i, r in enumerate(case["requests"]):
-            vec, hook, true = r
-            rec.current = r
-            before = (bool(sur.trained), sur.eval_counter, sur.predict_counter, list(sur.x_data), list(sur.y_data),
-                      len(rec.obj), len(rec.hook), len(rec.train), len(rec.fit))
-            ind = Individual(list(vec))
-            exc = None
-            try:
-                if case["via_job"]:
-                    job.evaluate(ind)
-                    ret = ind.costs
+        case_flag = {"hit": False}
+
+        def state_of(w):
+            return (bool(w.trained), w.eval_counter, w.predict_counter, list(w.x_data), list(w.y_data),
+                    len(w.rec.obj), len(w.rec.hook), len(w.rec.train), len(w.rec.fit))
+
+        def run_events(seg, events):
+            for i, ev in enumerate(events):
+                pos = (seg, i)
+                sur = problem.surrogate
+                k = next(j for j, w in enumerate(wrappers) if w is sur)
+                a = acct[k]
+                subject = sur.c19_subject
+                ts = getattr(sur, "train_step", None)
+                kw = {"subject": subject, "train_step": ts}
+                rec = sur.rec
+                before = state_of(sur)
+                others = [(j, state_of(w)) for j, w in enumerate(wrappers) if w is not sur]
+                kind = ev[0]
+                ret = exc = None
+                if kind == "req":
+                    _, vec, hook, true = ev
+                    problem.current = ev
+                    a["requests"] += 1
+                    ind = Individual(list(vec))
+                    try:
+                        if case["via_job"]:
+                            job.evaluate(ind)
+                            ret = ind.costs
+                        else:
+                            ret = problem.surrogate.evaluate(ind)
+                    except ZeroDivisionError as e:
+                        ret, exc = None, e
+                    except Exception as e:          # anything else is not behaviour of the unchanged code
+                        ret, exc = None, e
+                        fail("request raised %r" % (e,), case, pos, clause="unexpected exception", **kw)
+                    if seg == "main":
+                        rets.append(None if exc is not None else ret)
+                elif kind == "seed":
+                    inds = []
+                    for vec, costs, st in ev[1]:
+                        ind = Individual(list(vec))
+                        ind.costs = list(costs)
+                        ind.state = Individual.State[st]
+                        inds.append(ind)
+                    problem.individuals = inds
+                    sur.read_from_data_store()
+                elif kind == "train":
+                    sur.train()
+                elif kind == "set_step":
+                    sur.train_step = ev[1]
+                elif kind == "set_trained":
+                    sur.trained = ev[1]
+                elif kind == "use":
+                    problem.surrogate = wrappers[ev[1]]
+                # ---- direct oracle: the clauses of the property on the implementation alone
+                for j, st in others:
+                    if state_of(wrappers[j]) != st:
+                        fail("event %r changed wrapper %d, which is not problem.surrogate" % (kind, j), case, pos, clause="other wrapper touched", **kw)
+                t_b, ec_b, pc_b, x_b, y_b, no_b, nh_b, nt_b, nf_b = before
+                ec, pc = sur.eval_counter, sur.predict_counter
+                n_obj = len(rec.obj) - no_b
+                n_train = len(rec.train) - nt_b
+                if kind != "req":
+                    # nothing but a request is an evaluation or a prediction; only train() trains
+                    if (ec, pc) != (ec_b, pc_b):
+                        fail("%s changed the counters: eval %d->%d predict %d->%d (they must add up to the number of requests)"
+                             % (kind, ec_b, ec, pc_b, pc), case, pos, clause="counters_add_up non-request", **kw)
+                    if n_obj != 0 or len(rec.hook) != nh_b:
+                        fail("%s called the objective / the hook" % kind, case, pos, clause="objective call without request", **kw)
+                    if subject != "eval" and n_train != (1 if kind == "train" else 0):
+                        fail("%s called train() %d times" % (kind, n_train), case, pos, clause="retrain schedule non-request", **kw)
+                    if kind == "seed":
+                        if sur.x_data[:len(x_b)] != x_b or sur.y_data[:len(y_b)] != y_b or len(sur.x_data) != len(sur.y_data):
+                            fail("read_from_data_store() disturbed the existing training pairs", case, pos, clause="training data order", **kw)
+                        a["want_x"] += sur.x_data[len(x_b):]        # what is seeded is judged by the correspondence, not here
+                        a["want_y"] += sur.y_data[len(y_b):]
+                    elif sur.x_data != x_b or sur.y_data != y_b:
+                        fail("%s changed the training set" % kind, case, pos, clause="training data non-request", **kw)
+                    if kind == "train" and subject != "eval":
+                        a["ec_last_train"] = ec
+                    continue
+                if (ec + pc) - (ec_b + pc_b) != 1:
+                    fail("counters do not add up: eval %d->%d, predict %d->%d for one request" % (ec_b, ec, pc_b, pc), case, pos, clause="counters_add_up", **kw)
+                if subject == "eval":
+                    if n_obj != 1 or rec.obj[-1][0] != vec:
+                        fail("pass-through: objective called %d times for one request" % n_obj, case, pos, clause="passthrough objective calls", **kw)
+                    if exc is None and ret != true:
+                        fail("pass-through: returned %r, true objective value %r" % (ret, true), case, pos, clause="passthrough value", **kw)
+                    if ec != ec_b + 1 or pc != pc_b:
+                        fail("pass-through: eval_counter %d->%d predict_counter %d->%d" % (ec_b, ec, pc_b, pc), case, pos, clause="passthrough counter", **kw)
+                    if sur.x_data != x_b or sur.y_data != y_b:
+                        fail("pass-through: training set changed", case, pos, clause="passthrough data", **kw)
+                    continue
+                if n_obj == 0:
+                    # a prediction was used
+                    if not t_b:
+                        fail("prediction used while the model is not trained (returned %r)" % (ret,), case, pos, clause="prediction while untrained", **kw)
+                    elif not case["has_hook"] or hook is None:
+                        fail("objective not evaluated although the hook gave no value (returned %r)" % (ret,), case, pos, clause="no value and no evaluation", **kw)
+                    elif exc is None and ret != hook:
+                        fail("prediction returned %r, hook answered %r" % (ret, hook), case, pos, clause="prediction value", **kw)
+                    if pc != pc_b + 1 or ec != ec_b:
+                        fail("prediction not counted as a prediction: eval %d->%d predict %d->%d" % (ec_b, ec, pc_b, pc), case, pos, clause="prediction counter", **kw)
+                    if sur.x_data != x_b or sur.y_data != y_b:
+                        fail("training data changed by a prediction", case, pos, clause="prediction touches data", **kw)
+                    if n_train != 0:
+                        fail("train() called by a predicted request", case, pos, clause="train on prediction", **kw)
                 else:
-                    ret = problem.surrogate.evaluate(ind)
-            except ZeroDivisionError as e:
-                ret, exc = None, e
-            except Exception as e:          # anything else is not behaviour of the unchanged code
-                ret, exc = None, e
-                fail("request raised %r" % (e,), case, i, clause="unexpected exception")
-            rets.append(None if exc is not None else ret)
-            # ---- direct oracle: the clauses of the property on the implementation alone
-            t_b, ec_b, pc_b, x_b, y_b, no_b, nh_b, nt_b, nf_b = before
-            ec, pc = sur.eval_counter, sur.predict_counter
-            n_obj = len(rec.obj) - no_b
-            n_train = len(rec.train) - nt_b
-            if (ec + pc) - (ec_b + pc_b) != 1:
-                fail("counters do not add up: eval %d->%d, predict %d->%d for one request" % (ec_b, ec, pc_b, pc), case, i, clause="counters_add_up")
-            if subject == "eval":
-                if n_obj != 1 or rec.obj[-1][0] != vec:
-                    fail("pass-through: objective called %d times for one request" % n_obj, case, i, clause="passthrough objective calls")
-                if exc is None and ret != true:
-                    fail("pass-through: returned %r, true objective value %r" % (ret, true), case, i, clause="passthrough value")
-                if ec != ec_b + 1 or pc != pc_b:
-                    fail("pass-through: eval_counter %d->%d predict_counter %d->%d" % (ec_b, ec, pc_b, pc), case, i, clause="passthrough counter")
-                continue
-            if n_obj == 0:
-                # a prediction was used
-                if not t_b:
-                    fail("prediction used while the model is not trained (returned %r)" % (ret,), case, i, clause="prediction while untrained")
-                elif not case["has_hook"] or hook is None:
-                    fail("objective not evaluated although the hook gave no value (returned %r)" % (ret,), case, i, clause="no value and no evaluation")
-                elif exc is None and ret != hook:
-                    fail("prediction returned %r, hook answered %r" % (ret, hook), case, i, clause="prediction value")
-                if pc != pc_b + 1 or ec != ec_b:
-                    fail("prediction not counted as a prediction: eval %d->%d predict %d->%d" % (ec_b, ec, pc_b, pc), case, i, clause="prediction counter")
-                if sur.x_data != x_b or sur.y_data != y_b:
-                    fail("training data changed by a prediction", case, i, clause="prediction touches data")
-                if n_train != 0:
-                    fail("train() called by a predicted request", case, i, clause="train on prediction")
-            else:
-                want_x.append(vec)
-                want_y.append(true)
-                if n_obj != 1 or rec.obj[-1][0] != vec:
-                    fail("true objective evaluated %d times for one request" % n_obj, case, i, clause="objective calls")
-                if t_b and case["has_hook"] and hook is not None and ret != true:
-                    pass    # evaluating although a prediction was available is not excluded by the statement
-                if exc is None and ret != true:
-                    fail("true evaluation returned %r, objective value %r" % (ret, true), case, i, clause="value changed")
-                if ec != ec_b + 1 or pc != pc_b:
-                    fail("true evaluation not counted exactly once: eval %d->%d predict %d->%d" % (ec_b, ec, pc_b, pc), case, i, clause="evaluation counter")
-                if sur.x_data != x_b + [vec] or sur.y_data != y_b + [true]:
-                    fail("(vector, value) not appended exactly once at the end: |x| %d->%d |y| %d->%d" % (len(x_b), len(sur.x_data), len(y_b), len(sur.y_data)),
-                         case, i, clause="training data append")
-                elif rec.obj[-1][1] != len(x_b):
-                    fail("training data extended before the objective was called", case, i, clause="append before call")
-                if ts == -1 or ts > 0:
-                    due = ts != -1 and ec % ts == 0
-                    if n_train != (1 if due else 0):
-                        fail("train() called %d times at eval_counter %d with train_step %d (required %d)" % (n_train, ec, ts, 1 if due else 0),
-                             case, i, clause="retrain schedule")
-                    elif due and subject == "scikit":
-                        nfit = len(rec.fit) - nf_b
-                        if nfit != 1 or rec.fit[-1][1] != sur.x_data or rec.fit[-1][2] != sur.y_data:
-                            fail("train() did not fit the regressor once on the current training set", case, i, clause="fit data")
-        if subject != "eval" and (sur.x_data != want_x or sur.y_data != want_y):
-            fail("training set is not the sequence of truly evaluated (vector, value) pairs", case, None, clause="training set order")
-        if sur.eval_counter + sur.predict_counter != len(case["requests"]):
-            fail("eval_counter %d + predict_counter %d != %d requests" % (sur.eval_counter, sur.predict_counter, len(case["requests"])),
-                 case, None, clause="counters_add_up total")
-        obs = {"returned": rets, "trained": bool(sur.trained), "eval_counter": sur.eval_counter, "predict_counter": sur.predict_counter,
-               "x_data": list(sur.x_data), "y_data": list(sur.y_data), "train_log": list(rec.train), "obj_log": list(rec.obj),
-               "hook_log": list(rec.hook), "tape": list(rec.tape), "trained0": trained0}
-        return obs
+                    a["want_x"].append(vec)
+                    a["want_y"].append(true)
+                    if n_obj != 1 or rec.obj[-1][0] != vec:
+                        fail("true objective evaluated %d times for one request" % n_obj, case, pos, clause="objective calls", **kw)
+                    if exc is None and ret != true:
+                        fail("true evaluation returned %r, objective value %r" % (ret, true), case, pos, clause="value changed", **kw)
+                    if ec != ec_b + 1 or pc != pc_b:
+                        fail("true evaluation not counted exactly once: eval %d->%d predict %d->%d" % (ec_b, ec, pc_b, pc), case, pos, clause="evaluation counter", **kw)
+                    if sur.x_data != x_b + [vec] or sur.y_data != y_b + [true]:
+                        fail("(vector, value) not appended exactly once at the end: |x| %d->%d |y| %d->%d" % (len(x_b), len(sur.x_data), len(y_b), len(sur.y_data)),
+                             case, pos, clause="training data append", **kw)
+                    elif rec.obj[-1][1] != len(x_b):
+                        fail("training data extended before the objective was called", case, pos, clause="append before call", **kw)
+                    if ts == -1 or ts > 0:
+                        # "retrained exactly at every train_step-th TRUE EVALUATION": the count of true evaluations of
+                        # this wrapper is eval_counter (checked above to move by one per true evaluation, and by nothing else)
+                        due = ts != -1 and ec % ts == 0
+                        if n_train != (1 if due else 0):
+                            fail("train() called %d times at true evaluation number %d (training set size %d) with train_step %d (required %d)"
+                                 % (n_train, ec, len(sur.x_data), ts, 1 if due else 0), case, pos, clause="retrain schedule", **kw)
+                        elif due and subject == "scikit":
+                            nfit = len(rec.fit) - nf_b
+                            if nfit != 1 or rec.fit[-1][1] != sur.x_data or rec.fit[-1][2] != sur.y_data:
+                                fail("train() did not fit the regressor once on the current training set", case, pos, clause="fit data", **kw)
+                    if ts not in (-1, 0):
+                        # statistics: would a look-alike quantity have decided differently?
+                        sep["retrain_decisions"] += 1
+                        if len(sur.x_data) != ec:
+                            sep["len_x_data_differs_from_eval_counter"] += 1
+                            sep["trains_with_len_x_data_differing"] += n_train
+                            if not case_flag["hit"]:
+                                case_flag["hit"] = True
+                                sep["cases_with_such_a_decision"] += 1
+                        alt = {"len_x_data": len(sur.x_data), "requests_to_wrapper": a["requests"], "predict_counter": pc,
+                               "counter_before_increment": ec - 1, "objective_calls_on_problem": problem.n_obj,
+                               "evaluations_since_last_train_call": ec - a["ec_last_train"],
+                               "evaluations_since_start_of_case": ec - a["ec_case_start"]}
+                        for name, q in alt.items():
+                            sep["quantity_differs"][name] += q != ec
+                            sep["decision_would_differ"][name] += (q % ts == 0) != (ec % ts == 0)
+                    if n_train:
+                        a["ec_last_train"] = ec
+
+        run_events("warmup", case["warmup"])
+        # snapshot: the model starts here
+        snap = []
+        for w, a in zip(wrappers, acct):
+            snap.append({"trained": bool(w.trained), "eval_counter": w.eval_counter, "predict_counter": w.predict_counter,
+                         "x_data": list(w.x_data), "y_data": list(w.y_data), "train_step": getattr(w, "train_step", -1)})
+            w.rec = Rec()
+            a["ec_case_start"] = w.eval_counter
+        cur0 = next(j for j, w in enumerate(wrappers) if w is problem.surrogate)
+        run_events("main", case["events"])
+        for j, (w, a) in enumerate(zip(wrappers, acct)):
+            kw = {"subject": w.c19_subject, "train_step": getattr(w, "train_step", None)}
+            if w.x_data != a["want_x"] or w.y_data != a["want_y"]:
+                fail("training set of wrapper %d is not the sequence of seeded and truly evaluated (vector, value) pairs" % j, case, ("main", None),
+                     clause="training set order", **kw)
+            if w.eval_counter + w.predict_counter != a["requests"]:
+                fail("wrapper %d: eval_counter %d + predict_counter %d != %d requests" % (j, w.eval_counter, w.predict_counter, a["requests"]),
+                     case, ("main", None), clause="counters_add_up total", **kw)
+        final = [{"trained": bool(w.trained), "eval_counter": w.eval_counter, "predict_counter": w.predict_counter,
+                  "train_step": getattr(w, "train_step", -1), "x_data": list(w.x_data), "y_data": list(w.y_data),
+                  "train_log": list(w.rec.train), "obj_log": list(w.rec.obj), "hook_log": list(w.rec.hook), "tape": list(w.rec.tape)}
+                 for w in wrappers]
+        return {"returned": rets, "cur0": cur0, "cur": next(j for j, w in enumerate(wrappers) if w is problem.surrogate),
+                "snapshot": snap, "final": final}
+
+    def enc_event(ev):
+        k = ev[0]
+        if k == "req":
+            return "ereq %s" % pl(enc_vec(ev[1]), optl(ev[2], enc_vec), enc_vec(ev[3]))
+        if k == "seed":
+            return "ESeed %s" % ll(ev[1], lambda i: pl(enc_vec(i[0]), enc_vec(i[1])))
+        if k == "train":
+            return "ETrain"
+        if k == "set_step":
+            return "ESetStep %s" % zl(ev[1])
+        if k == "set_trained":
+            return "ESetTrained %s" % bl(ev[1])
+        return "EUse %s" % nl(ev[1])
 
     def encode(case, obs):
-        c = "{| c9_pass := %s; c9_ts := %s; c9_hook := %s; c9_trained0 := %s; c9_tape := %s; c9_reqs := %s |}" % (
-            bl(case["subject"] == "eval"), zl(case["train_step"]), bl(case["has_hook"]), bl(obs["trained0"]),
-            ll(obs["tape"], bl),
-            ll(case["requests"], lambda r: pl(enc_vec(r[0]), optl(r[1], enc_vec), enc_vec(r[2]))))
-        e = pl(ll(obs["returned"], lambda v: optl(v, enc_vec)),
-               pl(bl(obs["trained"]), nl(obs["eval_counter"]), nl(obs["predict_counter"])),
-               ll(obs["x_data"], enc_vec), ll(obs["y_data"], enc_vec),
-               ll(obs["train_log"], enc_n3), ll(obs["obj_log"], enc_vnn), ll(obs["hook_log"], enc_vnn))
+        slots = ["{| sl_pass := %s; sl_ts := %s; sl_trained := %s; sl_ec := %s; sl_pc := %s; sl_x := %s; sl_y := %s; sl_tape := %s |}" % (
+            bl(sl["subject"] == "eval"), zl(sn["train_step"]), bl(sn["trained"]), nl(sn["eval_counter"]), nl(sn["predict_counter"]),
+            ll(sn["x_data"], enc_vec), ll(sn["y_data"], enc_vec), ll(fin["tape"], bl))
+            for sl, sn, fin in zip(case["slots"], obs["snapshot"], obs["final"])]
+        c = "{| c9_hook := %s; c9_cur := %s; c9_slots := [%s]; c9_events := %s |}" % (
+            bl(case["has_hook"]), nl(obs["cur0"]), "; ".join(slots), ll(case["events"], enc_event))
+        e = pl(ll(obs["returned"], lambda v: optl(v, enc_vec)), nl(obs["cur"]),
+               ll(obs["final"], lambda f: pl(pl(bl(f["trained"]), nl(f["eval_counter"]), nl(f["predict_counter"])), zl(f["train_step"]),
+                                             ll(f["x_data"], enc_vec), ll(f["y_data"], enc_vec),
+                                             ll(f["train_log"], enc_n3), ll(f["obj_log"], enc_vnn), ll(f["hook_log"], enc_vnn))))
         return c, e
 
     rng = ctx.rng
-    n_cases = ctx.pick(700, 12000)
+    n_plain = ctx.pick(330, 6000)
+    n_session = ctx.pick(330, 6000)
     cases, expected, meta = [], [], []
-    hist = {"subject": {}, "train_step": {}, "length": {"1-5": 0, "6-20": 0, "21-40": 0, "41-60": 0},
-            "requests": 0, "predicted": 0, "evaluated": 0, "hook_declined": 0, "train_calls": 0,
-            "raised": 0, "via_job": 0, "untrained_after_train": 0, "no_hook_problem": 0}
+    hist = {"stream": {}, "subject": {}, "train_step": {}, "length": {"1-5": 0, "6-20": 0, "21-40": 0, "41-60": 0, "61+": 0},
+            "wrappers_per_case": {}, "events": {}, "requests": 0, "predicted": 0, "evaluated": 0, "hook_declined": 0, "train_calls": 0,
+            "raised": 0, "via_job": 0, "untrained_after_train": 0, "no_hook_problem": 0,
+            "cases_with_warmup": 0, "model_starts_with_len_x_data_ne_eval_counter": 0, "model_starts_with_advanced_counters": 0,
+            "model_starts_trained": 0, "seeded_individuals": {"EVALUATED": 0, "EMPTY": 0, "IN_PROGRESS": 0, "FAILED": 0},
+            "seed_calls_repeating_individuals": 0}
 
     def add(case):
         obs = implementation(case)
         c, e = encode(case, obs)
         cases.append(c)
         expected.append(e)
-        meta.append({k: case[k] for k in ("subject", "train_step", "has_hook", "trained0", "via_job", "requests")} |
-                    {"train_tape": obs["tape"], "observed": {k: obs[k] for k in ("returned", "eval_counter", "predict_counter", "train_log")}})
-        n = len(case["requests"])
-        hist["subject"][case["subject"]] = hist["subject"].get(case["subject"], 0) + 1
-        hist["train_step"][str(case["train_step"])] = hist["train_step"].get(str(case["train_step"]), 0) + 1
-        hist["length"]["1-5" if n <= 5 else "6-20" if n <= 20 else "21-40" if n <= 40 else "41-60"] += 1
-        hist["requests"] += n
-        hist["predicted"] += obs["predict_counter"]
-        hist["evaluated"] += obs["eval_counter"]
-        hist["hook_declined"] += len(obs["hook_log"]) - obs["predict_counter"]
-        hist["train_calls"] += len(obs["train_log"])
+        fin = obs["final"]
+        meta.append({k: case[k] for k in ("stream", "has_hook", "via_job", "cur", "warmup", "events")} |
+                    {"wrappers": [{k: sl[k] for k in ("subject", "train_step", "trained0")} for sl in case["slots"]],
+                     "model_start": [{k: sn[k] for k in ("trained", "eval_counter", "predict_counter", "train_step")} | {"len_x_data": len(sn["x_data"])}
+                                     for sn in obs["snapshot"]],
+                     "observed": {"returned": obs["returned"], "wrappers": [{k: f[k] for k in ("eval_counter", "predict_counter", "train_log", "tape")} for f in fin]}})
+        n = len(case["events"])
+        hist["stream"][case["stream"]] = hist["stream"].get(case["stream"], 0) + 1
+        hist["wrappers_per_case"][str(len(fin))] = hist["wrappers_per_case"].get(str(len(fin)), 0) + 1
+        for sl in case["slots"]:
+            hist["subject"][sl["subject"]] = hist["subject"].get(sl["subject"], 0) + 1
+            hist["train_step"][str(sl["train_step"])] = hist["train_step"].get(str(sl["train_step"]), 0) + 1
+        prev = None
+        for ev in case["warmup"] + case["events"]:
+            hist["events"][ev[0]] = hist["events"].get(ev[0], 0) + 1
+            if ev[0] == "seed":
+                for i in ev[1]:
+                    hist["seeded_individuals"][i[2]] += 1
+                hist["seed_calls_repeating_individuals"] += bool(prev) and ev[1][:len(prev)] == prev
+                prev = ev[1]
+        hist["length"]["1-5" if n <= 5 else "6-20" if n <= 20 else "21-40" if n <= 40 else "41-60" if n <= 60 else "61+"] += 1
+        hist["requests"] += len(obs["returned"])
+        hist["predicted"] += sum(f["predict_counter"] - sn["predict_counter"] for f, sn in zip(fin, obs["snapshot"]))
+        hist["evaluated"] += sum(f["eval_counter"] - sn["eval_counter"] for f, sn in zip(fin, obs["snapshot"]))
+        hist["hook_declined"] += sum(len(f["hook_log"]) for f in fin) - sum(f["predict_counter"] - sn["predict_counter"] for f, sn in zip(fin, obs["snapshot"]))
+        hist["train_calls"] += sum(len(f["train_log"]) for f in fin)
         hist["raised"] += sum(1 for r in obs["returned"] if r is None)
         hist["via_job"] += bool(case["via_job"])
-        hist["untrained_after_train"] += sum(1 for t in obs["tape"] if not t)
+        hist["untrained_after_train"] += sum(1 for f in fin for t in f["tape"] if not t)
         hist["no_hook_problem"] += not case["has_hook"]
-        mixed = obs["predict_counter"] > 0 and obs["eval_counter"] > 0
-        ctx.count((case["subject"], case["train_step"], case["has_hook"], n, obs["eval_counter"], obs["predict_counter"],
-                   tuple(t[0] for t in obs["train_log"])), nontrivial=(n > 1))
-        if mixed and n <= 8:
+        hist["cases_with_warmup"] += bool(case["warmup"])
+        hist["model_starts_with_len_x_data_ne_eval_counter"] += any(len(sn["x_data"]) != sn["eval_counter"] for sn in obs["snapshot"])
+        hist["model_starts_with_advanced_counters"] += any(sn["eval_counter"] + sn["predict_counter"] > 0 for sn in obs["snapshot"])
+        hist["model_starts_trained"] += any(sn["trained"] and sl["subject"] != "eval" for sn, sl in zip(obs["snapshot"], case["slots"]))
+        ctx.count((case["stream"], case["has_hook"], n, obs["cur0"], obs["cur"],
+                   tuple((sl["subject"], sn["train_step"], sn["eval_counter"], len(sn["x_data"]), f["train_step"], f["eval_counter"], f["predict_counter"],
+                          len(f["x_data"]), tuple(t[0] for t in f["train_log"]))
+                         for sl, sn, f in zip(case["slots"], obs["snapshot"], fin))), nontrivial=(n > 1))
+        mixed = any(f["predict_counter"] > 0 and f["eval_counter"] > 0 for f in fin)
+        if mixed and n <= 10 and (case["stream"] == "session") == (len(ctx.samples) % 2 == 1):
             ctx.sample(meta[-1])
 
     # corpus: boundary cases read off the code
-    base = {"has_hook": True, "trained0": False, "train_script": [True] * 70, "scores": [0.3] * 70, "via_job": False, "dim": 1, "m": 1}
-    R = lambda v, h, t: ([float(v)], None if h is None else [float(h)], [float(t)])
+    def plain(subject="scikit", train_step=2, requests=(), has_hook=True, trained0=False, via_job=False,
+              train_script=None, warmup=(), events=None, slots=None, cur=0):
+        sl = {"subject": subject, "train_step": train_step, "trained0": trained0,
+              "train_script": train_script or [True] * 70, "scores": [0.3] * 70}
+        return {"stream": "corpus", "has_hook": has_hook, "via_job": via_job, "cur": cur, "slots": slots or [sl],
+                "warmup": list(warmup), "events": list(events) if events is not None else list(requests)}
+
+    def slot(subject, train_step, trained0=False, train_script=None):
+        return {"subject": subject, "train_step": train_step, "trained0": trained0,
+                "train_script": train_script or [True] * 70, "scores": [0.3] * 70}
+
+    R = lambda v, h, t: ["req", [float(v)], None if h is None else [float(h)], [float(t)]]
+    I = lambda v, c=None, st="EVALUATED": [[float(v)], [] if c is None else [float(c)], st]
+    doe = lambda k: ["seed", [I(-1 - j, (1 + j) ** 2) for j in range(k)]]
     corpus = [
-        dict(base, subject="eval", train_step=1, requests=[R(1, 9, 10), R(1, 9, 10), R(2, None, 20)]),
-        dict(base, subject="scikit", train_step=2, requests=[R(1, None, 10), R(2, 99, 20), R(3, 77, 30), R(4, None, 40), R(5, None, 50)]),
-        dict(base, subject="scikit", train_step=1, requests=[R(1, 5, 10), R(2, 5, 20), R(3, None, 30), R(4, 5, 40)]),
-        dict(base, subject="scikit", train_step=-1, requests=[R(i, 5, i * 10) for i in range(12)]),
-        dict(base, subject="scikit", train_step=-1, trained0=True, requests=[R(i, 5 if i % 2 else None, i * 10) for i in range(12)]),
-        dict(base, subject="scikit", train_step=0, requests=[R(1, 5, 10), R(2, 5, 20)]),
-        dict(base, subject="scikit", train_step=-2, requests=[R(i, None, i) for i in range(6)]),
-        dict(base, subject="scikit", train_step=3, has_hook=False, requests=[R(i, 5, i) for i in range(10)]),
-        dict(base, subject="scikit", train_step=10, requests=[R(i, 7, i) for i in range(31)]),
-        dict(base, subject="scikit", train_step=60, requests=[R(i, 7, i) for i in range(60)]),
-        dict(base, subject="scripted", train_step=2, train_script=[True, False, True, False] * 20,
-             requests=[R(i, 7 if i % 3 else None, i) for i in range(30)]),
-        dict(base, subject="scripted", train_step=1, train_script=[False] * 70, requests=[R(i, 7, i) for i in range(8)]),
-        dict(base, subject="scikit", train_step=2, via_job=True, requests=[R(1, None, 10), R(2, 99, 20), R(3, 77, 30), R(4, None, 40)]),
-        dict(base, subject="eval", train_step=1, via_job=True, requests=[R(1, 9, 10), R(2, None, 20)]),
-        dict(base, subject="scikit", train_step=1, requests=[([1.0], [], [10.0]), ([2.0], [], [20.0]), ([3.0], [0.0], [30.0])]),
+        plain("eval", 1, [R(1, 9, 10), R(1, 9, 10), R(2, None, 20)]),
+        plain("scikit", 2, [R(1, None, 10), R(2, 99, 20), R(3, 77, 30), R(4, None, 40), R(5, None, 50)]),
+        plain("scikit", 1, [R(1, 5, 10), R(2, 5, 20), R(3, None, 30), R(4, 5, 40)]),
+        plain("scikit", -1, [R(i, 5, i * 10) for i in range(12)]),
+        plain("scikit", -1, [R(i, 5 if i % 2 else None, i * 10) for i in range(12)], trained0=True),
+        plain("scikit", 0, [R(1, 5, 10), R(2, 5, 20)]),
+        plain("scikit", -2, [R(i, None, i) for i in range(6)]),
+        plain("scikit", 3, [R(i, 5, i) for i in range(10)], has_hook=False),
+        plain("scikit", 10, [R(i, 7, i) for i in range(31)]),
+        plain("scikit", 60, [R(i, 7, i) for i in range(60)]),
+        plain("scripted", 2, [R(i, 7 if i % 3 else None, i) for i in range(30)], train_script=[True, False, True, False] * 20),
+        plain("scripted", 1, [R(i, 7, i) for i in range(8)], train_script=[False] * 70),
+        plain("scikit", 2, [R(1, None, 10), R(2, 99, 20), R(3, 77, 30), R(4, None, 40)], via_job=True),
+        plain("eval", 1, [R(1, 9, 10), R(2, None, 20)], via_job=True),
+        plain("scikit", 1, [["req", [1.0], [], [10.0]], ["req", [2.0], [], [20.0]], ["req", [3.0], [0.0], [30.0]]]),
+        # seeded training set (earlier design-of-experiments copied by read_from_data_store), hook declines: the model must be
+        # retrained at true evaluations 5, 10 (4, 8), whatever the size of the training set is
+        plain("scripted", 5, events=[doe(3)] + [R(i, None, i * i) for i in range(12)]),
+        plain("scikit", 5, events=[doe(3)] + [R(i, None, i * i) for i in range(12)]),
+        plain("scikit", 4, events=[doe(7)] + [R(i, None, i * i) for i in range(9)]),
+        plain("scikit", 5, events=[doe(5)] + [R(i, None, i * i) for i in range(11)]),
+        plain("scikit", -1, events=[doe(3)] + [R(i, None, i * i) for i in range(12)]),
+        plain("scikit", 3, events=[doe(3)] + [R(i, 7, i) for i in range(12)], via_job=True),
+        # the same, but the seeding happened before the observed part: the model starts with |x_data| = 3, eval_counter = 0
+        plain("scikit", 5, warmup=[doe(3)], events=[R(i, None, i * i) for i in range(12)]),
+        plain("scikit", 3, warmup=[doe(2)] + [R(i, None, i) for i in range(4)], events=[R(i, 7, i) for i in range(4, 12)]),
+        # individuals that were never evaluated are copied too, with their empty cost list; an empty store; seeding twice
+        plain("scikit", 2, events=[["seed", [I(1, 10), I(2, None, "EMPTY"), I(3, None, "FAILED"), I(4, None, "IN_PROGRESS"), I(5, 50)]]] +
+              [R(i, None, i) for i in range(5)]),
+        plain("scikit", 2, events=[["seed", []]] + [R(i, None, i) for i in range(5)]),
+        plain("scikit", 3, events=[doe(2), R(1, None, 1), doe(2), R(2, None, 2), ["seed", [I(-1, 1), I(-2, 4), I(9, 81)]], R(3, None, 3), R(4, None, 4)]),
+        # user calls of train() and a changed train_step do not shift the counter-based schedule
+        plain("scikit", 4, events=[R(1, None, 1), R(2, None, 2), ["train"], R(3, 7, 3), R(4, None, 4), R(5, None, 5), R(6, None, 6),
+                                   ["set_step", 3], R(7, None, 7), R(8, None, 8), ["set_step", 4], R(9, None, 9), R(10, None, 10)]),
+        plain("scripted", 2, events=[["set_trained", True], R(1, 7, 1), R(2, None, 2), ["set_trained", False], R(3, 7, 3), ["train"], R(4, 7, 4)],
+              train_script=[False, True, False, True] * 20),
+        # the surrogate of a problem is replaced mid-way: pass-through first, then a seeded predicting wrapper, and back
+        plain(slots=[slot("eval", -1), slot("scikit", 3)],
+              events=[R(1, None, 1), R(2, None, 2), ["use", 1], doe(3), R(3, None, 3), R(4, None, 4), ["train"], R(5, 77, 5), ["set_step", 2],
+                      R(6, None, 6), ["use", 0], R(7, 78, 7), ["use", 1], R(8, None, 8)]),
+        plain(slots=[slot("scikit", 2), slot("scripted", 2, trained0=True), slot("eval", -1)], cur=1,
+              events=[R(1, 7, 1), R(2, None, 2), ["use", 0], R(3, None, 3), R(4, None, 4), R(5, 7, 5), ["use", 1], R(6, None, 6), ["use", 2],
+                      R(7, 7, 7), ["use", 0], R(8, None, 8), R(9, None, 9)]),
     ]
     for case in corpus:
         add(case)
-    for k in range(n_cases):
-        add(gen_case(rng))
+    for k in range(n_plain):
+        add(gen_plain(rng))
+    for k in range(n_session):
+        add(gen_session(rng))
 
     ctx.coq_compare("c19", HEADER, "c19_case", "c19_obs", "c19_run", "c19_obs_eqb", cases, expected, meta, shard=ctx.pick(50, 200))
-    ctx.rule = ("request sequences of length 1..60 over the three subjects, train_step from %r, hook present/absent, accept probability "
-                "0/0.3/0.5/0.8/1, trained or untrained start, train() leaving trained True or False, ~40%% of the cases through Job.evaluate; "
-                "a case is non-trivial when it has more than one request; distinct = distinct (subject, train_step, hook, length, "
-                "eval_counter, predict_counter, train-call counters)") % (sorted(set(TRAIN_STEPS)),)
-    ctx.extra.update({"distribution": hist})
+    ctx.rule = ("two streams plus a corpus. plain: request sequences of length 1..60 on one fresh wrapper (three subjects, train_step from %r, "
+                "hook present/absent, accept probability 0/0.3/0.5/0.8/1, trained or untrained start, train() leaving trained True or False, "
+                "~40%% through Job.evaluate). session: 4..40 requests on 1..3 wrapper objects interleaved with read_from_data_store() "
+                "(0..9 individuals in all four states, sometimes the same individuals again), user train() calls, assignments of train_step "
+                "(from %r), trained and problem.surrogate; in ~40%% of the sessions a prefix is a warm-up run on the real objects only and the "
+                "model starts from the observed snapshot. A case is non-trivial when it has more than one event; distinct = distinct "
+                "(stream, hook, length, per wrapper: subject, starting and final train_step / eval_counter / training-set size, "
+                "predict_counter, train-call counters)") % (sorted(set(TRAIN_STEPS)), sorted(set(SESSION_STEPS)))
+    ctx.extra.update({"distribution": hist, "look_alike_quantities_at_retrain_decisions": sep})
 
 
-LEVEL_TEXT = ("Machine-checked Coq theorems over a state-machine model of SurrogateModelEval.evaluate and SurrogateModelPredict.evaluate / "
-              "evaluate_individual, for every request sequence, every accept/decline pattern of the predict hook, every integer train_step, "
-              "every train() oracle and every starting state: pass-through exactness, prediction only (and exactly) when trained and the hook "
-              "answers, true evaluation exactly once / returned unchanged / counted / recorded once in order, the retraining schedule "
-              "(train() exactly when train_step is not -1 and divides the new evaluation counter; never for -1), counters adding up to the "
-              "number of requests, and alignment of the training set. The model is tied to surrogate.py and surrogate_scikit.py on every run "
-              "by evaluating it in Coq on generated request sequences (length 1..60) and comparing returned values, counters, training data, "
-              "train/objective/hook call logs exactly.")
+LEVEL_TEXT = ("Machine-checked Coq theorems over a state-machine model of SurrogateModelEval.evaluate, SurrogateModelPredict.evaluate / "
+              "evaluate_individual and SurrogateModel.read_from_data_store, for every request sequence, every accept/decline pattern of the "
+              "predict hook, every integer train_step, every train() oracle and every starting state (so also after the training set was "
+              "seeded, where its size differs from the evaluation counter): pass-through exactness, prediction only (and exactly) when trained "
+              "and the hook answers, true evaluation exactly once / returned unchanged / counted / recorded once in order, the retraining "
+              "schedule (train() exactly when train_step is not -1 and divides the new evaluation counter; never for -1), its independence "
+              "of the training set (seeding changes nothing but x_data / y_data), counters adding up to the number of requests, alignment of "
+              "the training set, and sessions (requests interleaved with read_from_data_store(), user train() calls, assignments of "
+              "train_step / trained / problem.surrogate over several wrapper objects: each request is one step of the per-request theorems, "
+              "other wrappers are untouched). The model is tied to surrogate.py and surrogate_scikit.py on every run by evaluating it in Coq "
+              "on generated sessions, started from fresh wrappers and from snapshots of the real objects taken mid-way, and comparing returned "
+              "values, counters, train_step, training data, train/objective/hook call logs of every wrapper exactly.")
 LEVEL_NOTE = ("Trusted: Coq kernel + vm_compute; the hand-written model and the Python harness; train()'s effect on `trained`, the objective, "
               "the hook and the regressor are oracles. train_step = 0 raises in the code (modelled; 'returned unchanged' is stated for "
-              "train_step <> 0). SurrogateModelSMT shares the modelled base-class code but its own train() is not run. "
+              "train_step <> 0). read_from_data_store copies every stored individual whatever its state (modelled as it is). "
+              "SurrogateModelSMT shares the modelled base-class code but its own train() is not run. "
               "Correspondence is sampled, the theorems are unbounded.")
